@@ -403,9 +403,10 @@ func (g *gen) stmt(c gctx) *node {
 		return &node{Head: "gocall(function()", Blocks: []blk{{Open: "{ ev('E', 'gocall'); ", Body: g.pblock(c.fn("native"), 2), Close: "});"}}}
 	case 11: // labelled block left through finally
 		g.nLbl++
+		lbl := g.nLbl
 		id := g.tryID(c)
-		return &node{Head: fmt.Sprintf("lb%d: { try ", g.nLbl), Blocks: []blk{
-			{Open: fmt.Sprintf("{ ev('T+', %d); ", id), Body: g.pblock(c.with("try"), 1), Close: fmt.Sprintf(" break lb%d; } finally ", g.nLbl)},
+		return &node{Head: fmt.Sprintf("lb%d: { try ", lbl), Blocks: []blk{
+			{Open: fmt.Sprintf("{ ev('T+', %d); ", id), Body: g.pblock(c.with("try"), 1), Close: fmt.Sprintf(" break lb%d; } finally ", lbl)},
 			{Open: fmt.Sprintf("{ ev('F', %d); ", id), Body: g.maybeProbe(c.with("finally")), Close: "} }"}}}
 	case 12: // destructuring closes the iterator
 		g.nIt++
@@ -488,10 +489,12 @@ func (g *gen) kitProgram() []*node {
 	ck := cf(lvK0, "ctor")
 	ck.strict = true
 	s1 := g.site(ck.with("fieldinit"))
+	ckm, ckg := cf(lvK0, "fn").with("method"), cf(lvK0, "getter")
+	ckm.strict, ckg.strict = true, true
 	l = append(l, &node{Head: fmt.Sprintf("var K0 = class K0 { #p = (probe(%d), 1); constructor(a)", s1), Blocks: []blk{
 		{Open: "{ ev('E', 'K0'); this.a = a; ", Body: body(ck, 2), Close: "} m()"},
-		{Open: "{ ev('E', 'K0.m'); ", Body: body(cf(lvK0, "fn").with("method"), 1), Close: " return this.#p; } get v()"},
-		{Open: "{ ev('E', 'K0.v'); ", Body: g.maybeProbe(cf(lvK0, "getter")), Close: " return this.#p + 1; } };"}}})
+		{Open: "{ ev('E', 'K0.m'); ", Body: body(ckm, 1), Close: " return this.#p; } get v()"},
+		{Open: "{ ev('E', 'K0.v'); ", Body: g.maybeProbe(ckg), Close: " return this.#p + 1; } };"}}})
 	// bodies below are run by API kinds that do not drain the job queue (ForOf, Try, Object.Get, Runtime.Get/Set)
 	cr := func(tags ...string) gctx {
 		c := cf(lvTop, tags...)
